@@ -101,12 +101,16 @@ UTF8_OPS = [
     ("dec_repl", lambda s: s.decode("utf-8", "replace")), ("dec_ign", lambda s: s.decode("utf-8", "ignore")),
     ("dec_ascii_surr", lambda s: s.decode("ascii", "surrogateescape")),
     ("rt_surr", lambda s: s.decode("utf-8", "surrogateescape").encode("utf-8", "surrogateescape")),
+    ("dec_l1", lambda s: s.decode("iso8859-1")),
+    ("l1_of_utf8", lambda s: s.decode("utf-8", "surrogateescape").encode("iso8859-1", "surrogateescape")),
 ]
 UTF8_STR = "a\xe9€\udce9\ud800\U0001d11e\x7f߿"
 UTF8_STR_OPS = [
     ("enc_strict", lambda s: s.encode("utf-8")), ("enc_surr", lambda s: s.encode("utf-8", "surrogateescape")),
     ("enc_ascii_surr", lambda s: s.encode("ascii", "surrogateescape")), ("enc_repl", lambda s: s.encode("utf-8", "replace")),
     ("rt", lambda s: s.encode("utf-8", "surrogateescape").decode("utf-8", "surrogateescape")),
+    ("enc_l1", lambda s: s.encode("iso8859-1")), ("enc_l1_surr", lambda s: s.encode("iso8859-1", "surrogateescape")),
+    ("enc_l1_repl", lambda s: s.encode("latin-1", "replace")),
 ]
 
 DIGIT_ALPHA = "0a 1-_+"
